@@ -113,6 +113,9 @@ class Analysis:
     def __init__(self, repo: str, floors: bool = True) -> None:
         self.repo = repo
         self.prog = Program(repo) if floors else _program_without_floors(repo)
+        from .cfg import register_package_exceptions
+
+        self.package_exceptions = register_package_exceptions(self.prog)
         self._cfgs: dict[str, CFG] = {}
         self._building: set[str] = set()
         self.obligations: list[Obligation] = []
